@@ -21,6 +21,30 @@ Theorem C13_wait_order : forall bodies m rp sched r,
   r = option_map (@concat N) (all_some (map (fun pb => seqev (snd pb) [] []) bodies)).
 Proof. exact wait_order. Qed.
 
+(** ... and the result has the id array's shape in front of the row shape: one row per id, also for
+    an id array that holds exactly one id; a scalar id gives the thread's value as it is; the result
+    is a well-formed array; a failing child's own error is reported for an id array *)
+Theorem C13_wait_shape : forall ish vs rs,
+  ish <> [] -> vs <> [] -> (forall v, In v vs -> fst v = rs) ->
+  wait_glue ish (map WVal vs) = WVal (ish ++ rs, concat (map snd vs)).
+Proof. exact wait_shape. Qed.
+
+Theorem C13_wait_shape_empty : forall ish, ish <> [] -> wait_glue ish [] = WVal (ish, []).
+Proof. exact wait_shape_empty. Qed.
+
+Theorem C13_wait_scalar : forall v, wait_glue [] [WVal v] = WVal v.
+Proof. exact wait_scalar. Qed.
+
+Theorem C13_wait_wf : forall ish vs rs s d,
+  ish <> [] -> vs <> [] -> (forall v, In v vs -> fst v = rs /\ length (snd v) = prodn rs) ->
+  length vs = prodn ish ->
+  wait_glue ish (map WVal vs) = WVal (s, d) -> length d = prodn s.
+Proof. exact wait_wf. Qed.
+
+Theorem C13_wait_error : forall ish pre c rest,
+  ish <> [] -> wait_glue ish (map WVal pre ++ WErr c :: rest) = WErr c.
+Proof. exact wait_error. Qed.
+
 (** on every channel of every reachable state, the messages received so far are a prefix,
     in order, of the messages sent *)
 Theorem C13_fifo : forall m rp prog sched x up dn,
@@ -84,11 +108,18 @@ Example C13_nonvacuous :
   root_res (fst (run_strat 200 pick_high (init 1 true prog) [])) = Some (Some [13%N]) /\
   pure nested2 = true /\ pdepth nested2 = 2 /\
   root_res (fst (run_strat 200 pick_low (init 1 true nested2) [])) = Some (Some [6%N]) /\
-  root_res (fst (run_strat 400 pick_busy (init 2 true (nested_wide 4)) [])) = Some (Some [1%N; 1%N; 1%N; 1%N]).
+  root_res (fst (run_strat 400 pick_busy (init 2 true (nested_wide 4)) [])) = Some (Some [1%N; 1%N; 1%N; 1%N]) /\
+  wait_glue [1] [WVal ([], [11%N])] = WVal ([1], [11%N]) /\
+  wait_glue [3; 1] [WVal ([2], [1; 1]%N); WVal ([2], [2; 2]%N); WVal ([2], [3; 3]%N)] = WVal ([3; 1; 2], [1; 1; 2; 2; 3; 3]%N).
 Proof. vm_compute. repeat split; reflexivity. Qed.
 
 Print Assumptions C13_determinism.
 Print Assumptions C13_wait_order.
+Print Assumptions C13_wait_shape.
+Print Assumptions C13_wait_shape_empty.
+Print Assumptions C13_wait_scalar.
+Print Assumptions C13_wait_wf.
+Print Assumptions C13_wait_error.
 Print Assumptions C13_fifo.
 Print Assumptions C13_pool_progress.
 Print Assumptions C13_spawn_progress.
